@@ -3,7 +3,7 @@ import copy
 
 from harness import grammar, render, tlc
 from harness.common import CANARY_BASE, keep, Report, import_hpl, rng, split_canaries, tier
-from harness.checks.c17 import schema, tok
+from harness.checks.c17 import rotated_schema, schema, tok
 from harness.drive import call_parser, exc_name
 from harness.project import project
 
@@ -15,6 +15,7 @@ def run(replay=None):
     rnd = rng('c04')
     sc = schema()
     scj = {k: tok(v) for k, v in sc.items()}
+    sc_rot = rotated_schema()
     sents, r = grammar.enumerate_shapes('welltyped')
     rep.add_tlc(r)
     rep.count('welltyped_predicates', len(sents))
@@ -26,7 +27,7 @@ def run(replay=None):
             if not keep(text) and not keep(' '.join(toks)):
                 continue
             o, p = call_parser('property', text)
-            ev = {'id': len(events) + 1, 'out': o, 'prop': {'cls': 'None'}, 'schema': scj, 'check': 'na'}
+            ev = {'id': len(events) + 1, 'out': o, 'prop': {'cls': 'None'}, 'schema': scj, 'check': 'na', 'check2': 'na'}
             if o == 'ast':
                 ev['prop'] = project(p, ids=False)
                 try:
@@ -34,6 +35,20 @@ def run(replay=None):
                     ev['check'] = 'ok'
                 except Exception as e:  # noqa
                     ev['check'] = exc_name(e)
+                # a freshly parsed twin, and then this object, are checked against another schema (whatever that gives) and then
+                # against the schema of the family:
+                # being well-typed under a schema does not depend on what the object was checked against before
+                o2, p2 = call_parser('property', text)
+                for q in ((p2, p) if o2 == 'ast' else (p,)):
+                    try:
+                        q.type_check_references(sc_rot)
+                    except Exception:  # noqa
+                        pass
+                    try:
+                        q.type_check_references(sc)
+                        ev['check2'] = 'ok' if ev['check2'] in ('na', 'ok') else ev['check2']
+                    except Exception as e:  # noqa
+                        ev['check2'] = exc_name(e)
             events.append(ev)
             info[ev['id']] = text
             canon[ev['id']] = ' '.join(toks)
